@@ -115,6 +115,9 @@ class Scheduler:
         self.state_hashes = set()
         self.last_run = {}
         self.step_no_of_park = {}
+        self.timer_fires = 0          # virtual time: number of timer expiries delivered so far
+        self.sleep_since = {}         # (pid, gate) -> timer_fires when a script began a long piece of work
+        self.sleepers_pending = 0
         self.sleeping = {}
 
     # -- process bookkeeping ---------------------------------------------------
@@ -377,6 +380,7 @@ class Scheduler:
     def enabled_choices(self):
         """list of (lid, pid, kind, label, detail) in canonical order"""
         out = []
+        self.sleepers_pending = 0
         for p in sorted((p for p in self.procs.values() if p.gate is not None and not p.dead), key=lambda p: lidkey(p.lid)):
             kind, detail = p.gate
             if kind == "select":
@@ -395,6 +399,15 @@ class Scheduler:
                 d = self.parse_detail(detail)
                 if self.lock_free(int(d["fid"]), d.get("type", "w")):
                     out.append((p.lid, p.pid, kind, "go", detail))
+            elif kind == "script" and detail.startswith("sleep:"):
+                # a script doing a long piece of work (worlds.Spec.sync "sleep" K): it goes on after K timer expiries
+                # anywhere in the tree -- the scenario's way of saying "this job outlasts K polling intervals"
+                k = int(detail[6:].split(" ", 1)[0])
+                t0 = self.sleep_since.setdefault((p.pid, detail), self.timer_fires)
+                if self.timer_fires - t0 >= k:
+                    out.append((p.lid, p.pid, kind, "go", detail))
+                else:
+                    self.sleepers_pending += 1
             elif kind == "script" and detail.startswith("wait:"):
                 # a script waiting for another script's flag (worlds.Spec.sync): enabled once the flag exists
                 flag = detail[5:].split(" ", 1)[0]
@@ -407,6 +420,13 @@ class Scheduler:
                 out.append((p.lid, p.pid, kind, "1", detail))
             else:
                 out.append((p.lid, p.pid, kind, "go", detail))
+        if not out and self.sleepers_pending:
+            # nothing else can happen: time simply passes until the long jobs are done
+            for p in sorted((p for p in self.procs.values() if p.gate is not None and not p.dead), key=lambda p: lidkey(p.lid)):
+                kind, detail = p.gate
+                if kind == "script" and detail.startswith("sleep:"):
+                    out.append((p.lid, p.pid, kind, "go", detail))
+            self.sleepers_pending = 0
         return out
 
     # -- running -----------------------------------------------------------------
@@ -490,7 +510,7 @@ class Scheduler:
                 break
             gs = self.global_state()
             self.state_hashes.add(gs)
-            if all(c[3] in YIELD_LABELS or c[2] == ENV_KIND for c in choices):
+            if all(c[3] in YIELD_LABELS or c[2] == ENV_KIND for c in choices) and not self.sleepers_pending:
                 only_timer_states[gs] = only_timer_states.get(gs, 0) + 1
                 if only_timer_states[gs] >= 8:
                     verdict = "livelock"
@@ -546,6 +566,8 @@ class Scheduler:
             self.last_run[lid] = self.step_no
             self.step_no += 1
             if kind == "select":
+                if label == "timer":
+                    self.timer_fires += 1
                 self.send(p, "go " + ("timer" if label == "timer" else "io"))
             elif kind == "select-order":
                 self.send(p, "go " + label)
